@@ -18,22 +18,26 @@ PROP = dict(
          "gfx.hist: ALL histories of length 1-3 (thorough 4) over the 29-symbol alphabet {2 targets x 2 formats x (chunk 0 simple, "
          "chunk 0 with /0 /1 /2 header, chunks 1 2 3), ping}, all of length 4 (thorough 5) over a 13-symbol sub-alphabet (one target "
          "complete, chunk 0 + chunk 1 of the other target and of the other format, ping, one undecodable payload), all of length 6 "
-         "(thorough 7) over the 7-symbol single-target alphabet, plus random near-clean histories of 10-200 lines; gfx.match: the "
+         "(thorough 7) over the 7-symbol single-target alphabet, plus random near-clean histories of 10-200 lines (white space around "
+         "lines incl. U+0085 U+00A0 U+1680 U+2000-200A U+2028/9 U+202F U+205F U+3000 and look-alike bytes that TrimSpace keeps); "
+         "edge histories (genEdge): Unicode white space at line ends, invalid UTF-8 in held chunk lines (the final S/J reader state "
+         "lists the held lines, so the U+FFFD rewriting of the JSON hop is compared byte for byte), ids / dimensions / offsets / "
+         "indices at 2^32-1, 2^32, 2^63-1, 2^63, 2^64 and with up to 26 digits of leading zeros; gfx.match: the "
          "hand-written matcher and the Spec's line grammar against the real regular expression on 40 crafted and 20n mutated near-miss lines. "
          "non-trivial = at least one image delivered (gfx.match: line matched); distinct = distinct record text",
     trusted_base=[
-        "encoding/json round-trips the five exported ASCIIreader fields (ints exact, strings valid UTF-8; []string nil <-> null) - modelled as identity, exercised by the J discipline on every record",
-        "encoding/base64.StdEncoding modelled in Lean (Base/B64.lean, decode(encode b) = b proved); its behaviour on malformed text (CR/LF skipped, quantum-wise partial output) transcribed from the Go 1.23 source and exercised by records with damaged payloads",
-        "regexp: regex_gfx / ASCIIreader_gfx replaced by a hand-written matcher; the pattern text is extracted on every run and proved equal to the one the matcher was written for; matcher vs real regexp compared on near-miss lines (gfx.match)",
-        "strconv.Atoi / fmt %d / strings.Split / strings.TrimSpace (ASCII white space only) modelled; lines are ASCII in all generated histories",
-        "the non-graphics part of the decoder is an opaque per-line function (its value on each line is taken from the implementation)",
+        "encoding/json on the five exported ASCIIreader fields: ints exact, []string nil <-> null, strings come back with every invalid UTF-8 byte replaced by U+FFFD (modelled: jsonFix; proved harmless: serial_stream; compared on every record incl. the held lines)",
+        "encoding/base64.StdEncoding modelled in Lean (Base/B64.lean, decode(encode b) = b proved; proved equal on EVERY text to the second, independently written decoder Base/B64In.lean: b64_same); its behaviour on malformed text (CR/LF skipped, quantum-wise partial output) transcribed from the Go 1.23 source and exercised by records with damaged payloads",
+        "regexp: regex_gfx / ASCIIreader_gfx replaced by a hand-written matcher; the pattern text is extracted on every run and proved equal to the one the matcher was written for; matcher vs real regexp compared on near-miss lines (gfx.match); proved equal on every byte string to the Spec's grammar (spec_reading_agrees) and to the matcher of the full decoder model (matchers_agree)",
+        "strconv.Atoi / fmt %d / strings.Split modelled; strings.TrimSpace modelled rune-aware (Base/Bytes.lean: ASCII white space and U+0085, U+00A0, U+1680, U+2000-200A, U+2028/9, U+202F, U+205F, U+3000; invalid UTF-8 is not white space), exercised by the white-space records",
+        "the non-graphics part of the decoder is an opaque per-line function in the C05 model (its value on each line is taken from the implementation); C06.batch_models_agree identifies it with the full decoder model's value on that line",
         "Go int modelled as unbounded Int (a counter overflow needs 2^63 lines)",
     ],
-    assumptions=["numbers in chunk lines have at most 9 digits (fit the uint32 message fields); lines are ASCII"],
+    assumptions=["domain of the safety theorems (Spec.Gfx.inDomain): target ids, dimensions and offsets below 2^32 (the uint32 message fields), chunk indices and declared last indices below 2^63 (Go int) - values, not digit counts; beyond it su.Intval clamps to MaxInt64 and uint32() wraps (numbers_as_the_code_reads_them), the driver tags such records ood and checks model = code only"],
 )
 
 CLAIM = dict(
-    text="Lean theorems C05.* about the model of the repaired chunk decoder (fix-C05.patch): (chunking) for every image and target list the encoder emits ceil(len/170) numbered lines of at most 170 payload bytes whose payloads concatenate to the image, none for an empty image, and each line is read back by the decoder's matcher as that index/format/target/payload/header; (clean runs) for every non-empty image with uint32 metadata and every valid target list, the encoder's lines - in one batch call (from any state of the locals), line by line through the streaming reader (from any reader state), with the reader state serialised/restored between any two lines, or with unrelated non-graphics lines woven in anywhere - yield exactly one image equal to what was sent, returned at the last chunk line; (safety) for EVERY history of lines (no length bound; numbers of at most 9 digits) under the three feeding disciplines Spec.Gfx.safetyOn = none: every delivered image is legitimate where it was returned (chunks 0..N in order of one transfer started by its chunk 0, same target list and format, header metadata, no chunk 0 between, payloads valid base64), no transfer is delivered twice, and (for every history whatsoever) a delivered image object is never written again. base64 decode(encode b) = b is proved. The same Spec predicates (with the Spec's own independently written line grammar) are evaluated on the real library's deliveries; model = code is checked on generated and exhaustively enumerated histories.",
-    note=TB + "spec_reading_agrees: the Spec's independent line grammar (Spec.Gfx.parseLine) equals the decoder's matcher (readLine) on EVERY byte string; encoder_lines_clean, clean_run_spec (ids < 2^32: the decoder stores ids as uint32, clean_run_spec_id_domain_counterexample), safety_spec_batch/stream are the Spec-level forms (Spec.Gfx.checkEnc/checkClean/checkSafety = none) of the encoder, clean-run and safety theorems, i.e. exactly what the driver evaluates on the implementation's output. clean_run_spec is stated for a single target id.",
-    technique="Lean 4 proof (induction over the chunk index for clean runs; invariant over the history with ghost positions of accepted chunks and a reachability argument for the Spec's legitimacy search) + model/implementation correspondence incl. exhaustive short histories",
+    text="Lean theorems C05.* about the model of the repaired chunk decoder (fix: 87cf381): (chunking) for every image and target list the encoder emits ceil(len/170) numbered lines of at most 170 payload bytes whose payloads concatenate to the image, none for an empty image, and each line is read back by the decoder's matcher as that index/format/target/payload/header; (clean runs) for every image with uint32 metadata and every id list of uint32 ids, the encoder's whole output (one transfer per id) - in one batch call, line by line through the streaming reader, with the reader state serialised/restored between any two lines, or with unrelated non-graphics lines woven in anywhere, from ANY state of the decoder's locals / ANY reader state / ANY JSON state document (hence after any earlier history) - yields exactly one image per id, in order, equal to what was sent, returned at the last chunk line of its run (clean_run_spec_multi_any_state, clean_run_spec_multi; single-transfer forms clean_run_*); (safety) for EVERY history of lines (no length bound; ids, dimensions, offsets < 2^32 and chunk indices < 2^63, any number of digits) under the three feeding disciplines the Spec's check passes: every delivered image is legitimate where it was returned (chunks 0..N in order of one transfer started by its chunk 0, same target list and format, header metadata, no chunk 0 between, payloads valid base64), no transfer is delivered twice; and for every history whatsoever no delivered image object is altered afterwards - batch: never_altered (objects are store cells), streaming: stream_never_altered (object identity across Parse calls in a session heap; Parse returns nil or what one batch call returns; the reader struct holds no pointer: reader_fields_are_values, regenerated). base64 decode(encode b) = b is proved. The same Spec predicates (with the Spec's own independently written line grammar) are evaluated on the real library's deliveries; model = code is checked on generated and exhaustively enumerated histories.",
+    note=TB + "spec_reading_agrees: the Spec's independent line grammar (Spec.Gfx.parseLine) equals the decoder's matcher (readLine) on EVERY byte string. safety_spec_batch is stated on batchObserved = the returned message list WITHOUT line positions, images read after the call (what the driver builds from the implementation's output); it follows from the positions form by safety_erase_pos (deliveries in line order that pass with positions pass without; the order hypothesis is needed: safety_erase_pos_needs_order) and batchObserved_eq. safety_spec_stream carries the positions of the Parse calls, which the driver observes. Domain: safety_id_domain_counterexample shows the 2^32 bound on ids is needed (the decoder stores ids as uint32). The JSON hop rewrites invalid UTF-8 in held lines to U+FFFD; serial_stream proves the serialised reader returns at every line what the plain reader returns. C06.batch_models_agree / parse_models_agree: this model and the full inbound decoder model of C01/C02/C06 return the same messages on every line sequence.",
+    technique="Lean 4 proof (induction over the chunk index / the id list for clean runs; invariant over the history with ghost positions of accepted chunks and a reachability argument for the Spec's legitimacy search; greedy-exchange argument for erasing positions; simulation for the JSON hop and between the two decoder models) + model/implementation correspondence incl. exhaustive short histories",
 )
